@@ -36,36 +36,40 @@ f_moveaxis = z3.Function('Moveaxis', Data, IntArr, z3.IntSort(), IntArr, z3.IntS
 
 
 # ---- product lemmas (fold lemmas; proved by induction in props/lemmas.py, instantiated explicitly) ----
+def _s(x):
+    return z3.simplify(to_z3(x))
+
+
 def prod_split(arr, lo, mid, hi):
-    lo, mid, hi = to_z3(lo), to_z3(mid), to_z3(hi)
+    lo, mid, hi = _s(lo), _s(mid), _s(hi)
     return z3.Implies(z3.And(lo <= mid, mid <= hi), Pprod(arr, lo, hi) == Pprod(arr, lo, mid) * Pprod(arr, mid, hi))
 
 
 def prod_single(arr, i):
-    i = to_z3(i)
-    return Pprod(arr, i, i + 1) == arr[i]
+    i = _s(i)
+    return Pprod(arr, i, _s(i + 1)) == arr[i]
 
 
 def prod_empty(arr, i):
-    i = to_z3(i)
+    i = _s(i)
     return Pprod(arr, i, i) == 1
 
 
 def prod_cong(a, lo, hi, b, d):
-    lo, hi, d = to_z3(lo), to_z3(hi), to_z3(d)
+    lo, hi, d = _s(lo), _s(hi), _s(d)
     k = fresh_int('k')
-    return z3.Implies(z3.ForAll([k], z3.Implies(z3.And(lo <= k, k < hi), a[k] == b[k + d])),
-                      Pprod(a, lo, hi) == Pprod(b, lo + d, hi + d))
+    return z3.Implies(z3.ForAll([k], z3.Implies(z3.And(lo <= k, k < hi), a[k] == b[_s(k + d)])),
+                      Pprod(a, lo, hi) == Pprod(b, _s(lo + d), _s(hi + d)))
 
 
 def prod_pos(arr, lo, hi):
-    lo, hi = to_z3(lo), to_z3(hi)
+    lo, hi = _s(lo), _s(hi)
     k = fresh_int('k')
     return z3.Implies(z3.ForAll([k], z3.Implies(z3.And(lo <= k, k < hi), arr[k] >= 1)), Pprod(arr, lo, hi) >= 1)
 
 
 def prod_nonneg(arr, lo, hi):
-    lo, hi = to_z3(lo), to_z3(hi)
+    lo, hi = _s(lo), _s(hi)
     k = fresh_int('k')
     return z3.Implies(z3.ForAll([k], z3.Implies(z3.And(lo <= k, k < hi), arr[k] >= 0)), Pprod(arr, lo, hi) >= 0)
 
@@ -94,7 +98,7 @@ def prod_lemmas(seq: SSeq, M, n):
             nxt = pos + 1
         else:
             _, A, lo, ln = sg
-            nxt = pos + to_z3(ln)
+            nxt = z3.simplify(pos + to_z3(ln))
             out.append(prod_cong(M, pos, nxt, A, to_z3(lo) - pos))
             cuts.setdefault(A.get_id(), (A, []))[1].extend([to_z3(lo), to_z3(lo) + to_z3(ln)])
         out.append(prod_split(M, pos, nxt, n))
@@ -110,6 +114,7 @@ def prod_lemmas(seq: SSeq, M, n):
                 uniq.append(c)
         for a in uniq:
             out.append(prod_empty(A, a))
+            out.append(prod_single(A, a))
             for b in uniq:
                 if z3.eq(a, b):
                     continue
@@ -221,6 +226,17 @@ def leaf_reshape(interp, leaf: LeafV, args):
     return r
 
 
+def prod_term(run, seq: SSeq):
+    """ghost product of a (possibly derived) sequence, with the fold-lemma instances for its provenance"""
+    arr, ax = seq.to_array()
+    for a in ax:
+        run.assume(a)
+    n = to_z3(seq.length)
+    for lem in prod_lemmas(seq, arr, n):
+        run.assume(lem)
+    return Pprod(arr, 0, n)
+
+
 class StructV(Value):
     """a pytree of leaves: leaf sequence (symbolic or concrete length) + an opaque treedef token"""
 
@@ -306,14 +322,10 @@ def install(T: Theory):
         r.moved_from = (a, src, dst)
         return r
 
-    def seq_prod(interp, seq: SSeq):
-        arr, ax = seq.to_array()
-        for a in ax:
-            interp.run.assume(a)
-        n = to_z3(seq.length)
-        for lem in prod_lemmas(seq, arr, n):
-            interp.run.assume(lem)
-        interp.run.ghost.setdefault('prods', []).append((arr, n))
-        return Pprod(arr, 0, n)
-    T.seq_prod = seq_prod
+    T.seq_prod = lambda interp, seq: prod_term(interp.run, seq)
+
+    @T.ext('jax.eval_shape')
+    def _eval_shape(interp, f, *args):
+        # assumed: eval_shape(f, s) is the structure of f applied to arrays of structure s
+        return interp.call(f, list(args), {})
     return T
